@@ -93,8 +93,8 @@ class TransformCampaign:
         phys, outnode = res[1]
         try:
             canon = canon_plan(w, phys, outnode)
-        except AssertionError as e:
-            self.ctx.broke("canonicalisation of the physical plan failed", {"error": str(e), "meta": w.meta})
+        except (AssertionError, KeyError, StopIteration) as e:
+            self.ctx.broke("canonicalisation of the physical plan failed", {"error": "%s: %s" % (type(e).__name__, e), "meta": w.meta})
             return res, log
         ns, es, c, entries = model_input(w)
         term = "exec_physical %s %s %d %s %s" % (
